@@ -96,7 +96,7 @@ def opt_reachable_statement : Prop :=
 theorem hid_wf (b : Bool) : WF (hid b) :=
   ⟨by simp [hid], by simp [hid], by simp [hid],
    by intro p hp; have : p < 2 := hp; cases b <;> simp [hid] <;> omega,
-   by intro j m _ _; simp only [hid]; split <;> omega⟩
+   by intro j m _ _; apply small_lt_unset; simp only [hid]; split <;> omega⟩
 
 /-- **The mask hides the optimum** (known finding `ffsp-mask-hides-optimum-C05`). -/
 theorem not_opt_reachable : ¬ opt_reachable_statement := by
@@ -311,5 +311,64 @@ example : valid (hid false) (ofMatrix (hid false) (exec env (hid false) (reset (
     expressible (hid false) hidOpt = false := by decide
 example : PermBij (hid false) :=
   ⟨fun _ _ _ _ he => he, fun y hy => ⟨y, hy, rfl⟩⟩
+
+/-! ### Where the expressible class sits: strict non-delay ⊆ expressible ⊆ valid, both proper -/
+
+/-- every schedule that is non-delay with the sweep's tie rule is expressible (the premise of the
+expressibility condition never arises) -/
+theorem expressible_of_strictNonDelay (i : Inst) (ops : List Op) (hs : StrictNonDelay i ops)
+    (hnd : ∀ o, o ∈ ops → ∀ o', o' ∈ ops → o ≠ o' → o.machine = o'.machine → o.start ≠ o'.start) :
+    Expressible i ops :=
+  ⟨fun t ht sub hsub hidle hav => absurd hav (hs t ht sub hsub hidle), hnd⟩
+
+/-- 2 stages × 2 machines, 3 unit jobs -/
+def nd3 (swap : Bool) : Inst :=
+  ⟨2, 2, 3, fun _ _ => 1, fun p => if swap then 1 - p else p, true⟩
+
+/-- jobs 0,1 start together and job 2 follows, in both stages (a permutation schedule without any
+avoidable idling); job 2 takes the *second* machine of stage 0 and the *first* machine of stage 1 -/
+def nd3Ops : List Op :=
+  [⟨0, 0, 0⟩, ⟨1, 1, 0⟩, ⟨2, 1, 1⟩, ⟨0, 2, 1⟩, ⟨1, 3, 1⟩, ⟨2, 2, 2⟩]
+
+/-- **Not every non-delay permutation schedule is expressible** — under either machine permutation:
+the machine order of the sweep is the same in every stage, so "second machine first" in stage 0 and
+"first machine first" in stage 1 cannot both be met.  (The makespan 3 of this schedule is nevertheless
+reachable; `expressible` ⊊ `valid` costs optimality only on instances like `hid`.) -/
+theorem nondelay_permutation_not_expressible (b : Bool) :
+    valid (nd3 b) nd3Ops = true ∧ NonDelay (nd3 b) nd3Ops ∧ PermutationSchedule (nd3 b) nd3Ops ∧
+    ¬ Expressible (nd3 b) nd3Ops := by
+  cases b <;> decide
+
+/-- an expressible schedule that is not non-delay (waiting while a job is still in the previous stage):
+on `ex` (`Props/C07`) the episode `[0, 1, wait, 0, 1]` — the classes are incomparable with plain
+non-delay, and strict non-delay is a proper subclass -/
+example : Expressible ex (ofMatrix ex (exec env ex (reset ex) [0, 1, 2, 0, 1]).sched) ∧
+    ¬ StrictNonDelay ex (ofMatrix ex (exec env ex (reset ex) [0, 1, 2, 0, 1]).sched) := by decide
+
+/-! ### Zero durations: why `Expressible` has its second clause -/
+
+/-- one machine, two jobs of duration 0 -/
+def zz : Inst := ⟨1, 1, 2, fun _ _ => 0, fun p => p, true⟩
+/-- both jobs at time 0 on the one machine: a *valid* schedule (empty intervals do not overlap) that
+satisfies the idle-machine clause of expressibility — and is not reachable: the sweep visits a machine
+once per time unit -/
+def zzOps : List Op := [⟨0, 0, 0⟩, ⟨1, 0, 0⟩]
+def zzSigma : Nat → Nat → Int := fun m j => if m = 0 ∧ j < 2 then 0 else UNSET
+
+theorem double_start_clause_needed :
+    valid zz zzOps = true ∧ ofMatrix zz zzSigma = zzOps ∧
+    (∀ t, t ≤ horizon zzOps → ∀ sub, sub < MT zz → Idle zz zzOps (machineOf zz sub) t →
+      (∃ j, j < zz.J ∧ Avail zz zzOps j t sub) → SkipOK zz zzOps (sub / zz.M) t) ∧
+    ¬ ∃ as s, RunND env zz (env.reset zz) as s ∧ s.done = true ∧
+        ∀ m j, m < MT zz → j < zz.J → s.sched m j = zzSigma m j := by
+  refine ⟨by decide, by decide, by decide, ?_⟩
+  intro hex
+  have hw : WF zz := ⟨by decide, by decide, by decide, fun p hp => hp, fun j m _ _ => small_lt_unset (by simp [zz])⟩
+  have hb : PermBij zz := ⟨fun _ _ _ _ he => he, fun y hy => ⟨y, hy, rfl⟩⟩
+  have := ((reachable_iff_expressible zz hw hb zzSigma).mp hex).2
+  have he : ofMatrix zz zzSigma = zzOps := by decide
+  rw [he] at this
+  revert this
+  decide
 
 end Rl4co.Ffsp
